@@ -26,7 +26,7 @@ Definition live (steps : list (list ievent)) : room * list bool := build_from (e
 (* ------------------------------------------------------------------ reload *)
 
 (* the reload query meets the rows of a list in the order they were written (observed: entries with
-   the same date come out in insertion order), before its ORDER BY mdate DESC *)
+   the same date come out in insertion order), before its ORDER BY mdate ASC *)
 Definition pk_order {A} (l : list (N * A)) : list A := map snd l.
 Definition hist_admins (evs : list ievent) : list user :=
   pk_order (flat_map (fun iev => match snd iev with EvAdmin k d b => [(fst iev, {| u_key := k; u_date := d; u_enabled := b |})] | _ => [] end) evs).
